@@ -135,6 +135,7 @@ func retxOf(orig *opSpec) *opSpec {
 	op := *orig
 	op.Out, op.Park, op.N = "", "", 0
 	op.Fault, op.FaultSt = "", ""
+	op.Gate = false
 	op.Retx = orig.N
 	op.Note = "retransmission"
 	return &op
